@@ -2,7 +2,7 @@ SPECIFICATION Spec
 CONSTANTS
   Fam = "items"
   MaxLen = 3
-  Sel = {"F", "T"}
+  Sel = {"F", "T", "G"}
 INVARIANT Lemmas
 INVARIANT InModel
 CHECK_DEADLOCK FALSE
